@@ -632,6 +632,10 @@ def run(ctx, ck):
     ok = [norm(s) for s in ap.body()] == ['self.pulses.append(pulse)']
     ck.ob('R-EXH.attach', ap.qual, ok, ap.loc(), 'add_pulse appends the pulse once')
 
+    # junction pulses between a loaded and an unloaded wire
+    ck.rule('R-SYM.junction-loads', 'a junction pulse gets the distributed load of whichever of its two wires is loaded')
+    from ._junction_loads import check_junction_loads
+    check_junction_loads(ctx, ck)
     # R-CACHE for the per-object skin cache (shared with C14)
     from .C14 import run_cache_rule
     sites_, n_ = run_cache_rule(ctx, ck, only={('mininec.Skin_Effect_Load.impedance', 'zint'),
